@@ -20,6 +20,8 @@ def consts(prog):
 
 def run(rep):
     prog = rep.prog
+    from .c15 import wire_group_membership
+    wire_group_membership(rep)
     rep.rule("constants", "the digit arity U and digit count L evaluated by rustc satisfy U^L = 2^63; array lengths of digit proofs / builders = L, digit signatures = U")
     rep.rule("prover-domain", "generate_constraint_commitments returns Err iff value < 0, and no panic obligation is reachable for any i64 (bounds of the digit-signature lookup by intervals: digit = v % U in [0, U-1])")
     rep.rule("decomposition", "digits are d_j = v_j mod U, v_{j+1} = v_j div U over the whole L-array, starting from v_0 = value")
